@@ -653,10 +653,36 @@ class _Feas:
         memo[id(node)] = (eager, every, clean)
         return memo[id(node)]
 
-    def _present(self, sub: ast.Subscript):
+    def _present(self, sub: ast.Subscript, env: dict | None = None):
         """True / False when the assumption says the key of the lookup `M[k]` is / is not in M, else None"""
         cmp = ast.Compare(left=clone(sub.slice), ops=[ast.In()], comparators=[clone(sub.value)])
-        return self.assume(fact_of(self._root(cmp), True))
+        return self.assume(fact_of(self._root(cmp, env), True))
+
+    # ------------------------------------------------------------ origins: what a local holds on THIS path
+    # `x = <pure read>` records, per path, the expression (in root terms) whose value x holds.  A local with several reaching definitions
+    # (`try: x = T[k] / except KeyError: x = None`, `x = None; if ..: x = T.get(k)`) is then judged per path: where it holds the lookup, a test of x
+    # is a test of the lookup; where it holds the constant, the constant decides.  Rebinding x or any name the expression reads drops the record.
+    @staticmethod
+    def _drop_origin(env: dict, name: str) -> None:
+        env.pop("$o:" + name, None)
+        for k in [k for k, v in env.items() if k.startswith("$o:") and name in next(iter(v))[2]]:
+            del env[k]
+
+    def _note_origin(self, name: str, value: ast.AST, env: dict) -> None:
+        v = strip_cast(value)
+        if isinstance(v, (ast.Constant, ast.Name)) or not _pure_read(v):
+            return
+        r = self._root(v, env)
+        free = frozenset(n.id for n in ast.walk(r) if isinstance(n, ast.Name))
+        if name in free:
+            return
+        key = norm(r)
+        self.__dict__.setdefault("_origins", {})[key] = r
+        env["$o:" + name] = frozenset({("o", key, free)})
+
+    def _origin(self, name: str, env: dict | None) -> ast.AST | None:
+        v = env.get("$o:" + name) if env is not None else None
+        return self.__dict__.get("_origins", {}).get(next(iter(v))[1]) if v else None
 
     def _catches_key_error(self, h: ast.ExceptHandler) -> bool:
         if h.type is None:
@@ -687,10 +713,10 @@ class _Feas:
         if node.kind in ("cond", "stmt") and a is not None:
             eager, every, clean = self._lookups(node)
             if every:
-                if any(self._present(x) is False for x in eager):
+                if any(self._present(x, env) is False for x in eager):
                     # the lookup raises KeyError: the node never completes normally
                     return [(nxt, {**env, "$raised": _KEY_RAISED}) for nxt, lab in node.succ if lab == "exc"]
-                if follow_exc and clean and all(self._present(x) is True for x in every):
+                if follow_exc and clean and all(self._present(x, env) is True for x in every):
                     exc = [(nxt, {**env, "$raised": _NO_KEY_RAISED}) for nxt, lab in node.succ if lab == "exc"]
                     return [*exc, *[(n2, e2) for n2, e2 in self._step_plain(node, env, False)]]
         return self._step_plain(node, env, follow_exc)
@@ -730,6 +756,7 @@ class _Feas:
                 return [(nxt, env) for nxt, lab in node.succ if lab == "exc" and follow_exc]
         elif node.kind == "handler" and a is not None and getattr(a, "name", None):
             post = dict(env)
+            self._drop_origin(post, a.name)
             post[a.name] = frozenset({"T"})
         for nxt, lab in node.succ:
             if lab == "exc":
@@ -748,6 +775,7 @@ class _Feas:
 
     def _bind_target(self, t: ast.AST, v, env: dict) -> None:
         if isinstance(t, ast.Name):
+            self._drop_origin(env, t.id)
             self._set(env, t.id, v)
         elif isinstance(t, (ast.Tuple, ast.List)):
             n = len(t.elts)
@@ -762,6 +790,7 @@ class _Feas:
         for x in ast.walk(node):
             if isinstance(x, ast.NamedExpr):
                 env.pop(x.target.id, None)
+                self._drop_origin(env, x.target.id)
 
     def _exec(self, a: ast.AST, env: dict) -> dict | None:
         env = dict(env)
@@ -771,12 +800,16 @@ class _Feas:
                 return None
             for t in a.targets:
                 self._bind_target(t, v, env)
+            if len(a.targets) == 1 and isinstance(a.targets[0], ast.Name):
+                self._note_origin(a.targets[0].id, a.value, env)
         elif isinstance(a, ast.AnnAssign):
             if a.value is not None:
                 v = self.ev(a.value, env)
                 if not v:
                     return None
                 self._bind_target(a.target, v, env)
+                if isinstance(a.target, ast.Name):
+                    self._note_origin(a.target.id, a.value, env)
         elif isinstance(a, ast.AugAssign):
             self._forget_walrus(a.value, env)
             self._bind_target(a.target, _ANY, env)
@@ -790,11 +823,13 @@ class _Feas:
                 if it.optional_vars is not None:
                     self._bind_target(it.optional_vars, _ANY, env)
         elif isinstance(a, (ast.FunctionDef, ast.AsyncFunctionDef, ast.ClassDef)):
+            self._drop_origin(env, a.name)
             env[a.name] = frozenset({"T"})
         elif isinstance(a, ast.Delete):
             for t in a.targets:
                 if isinstance(t, ast.Name):
                     env.pop(t.id, None)
+                    self._drop_origin(env, t.id)
         elif isinstance(a, ast.Expr):
             v = strip_cast(a.value)
             inner = strip_cast(v.value) if isinstance(v, ast.Await) else v
@@ -815,7 +850,7 @@ class _Feas:
         return env
 
     # ------------------------------------------------------------ expressions
-    def _root(self, e: ast.AST) -> ast.AST:
+    def _root(self, e: ast.AST, env: dict | None = None) -> ast.AST:
         """e in the terms of the function the assumptions are about: bound parameters of a followed helper are replaced by the caller's arguments,
         pure single-assignment locals by their value; other locals of a followed helper get a name that cannot clash."""
         fe = self
@@ -830,6 +865,9 @@ class _Feas:
                 if n.id in fe.bind and n.id not in fe.stored:
                     b = fe.bind[n.id]
                     return clone(b) if b is not None else ast.Name(id=f"{n.id}@{fe.fi.name}", ctx=ast.Load())
+                o = fe._origin(n.id, env)
+                if o is not None:
+                    return clone(o)           # (already in root terms)
                 if n.id in fe.stored and self.budget > 0:
                     d = single_def(fe.fi, n.id)
                     if d is not None and d[1] is None and _pure_read(d[0]):
@@ -849,8 +887,8 @@ class _Feas:
                 return n
         return S().visit(clone(e))
 
-    def _atom(self, e: ast.AST, kind: str):
-        f = fact_of(self._root(e), True)
+    def _atom(self, e: ast.AST, kind: str, env: dict | None = None):
+        f = fact_of(self._root(e, env), True)
         v = self.assume(f)
         if v is None:
             return _BOOL if kind == "bool" else _ANY
@@ -897,7 +935,7 @@ class _Feas:
             if e.id in env:
                 return env[e.id]
             if e.id in self.tracked:
-                return _ANY
+                return self._atom(e, "any", env) if self._origin(e.id, env) is not None else _ANY
             if e.id in ("True", "False", "None"):
                 return frozenset({("k", {"True": True, "False": False, "None": None}[e.id])})
             a = self._atom(e, "any")
@@ -908,7 +946,9 @@ class _Feas:
             return a
         if isinstance(e, ast.NamedExpr):
             v = self.ev(e.value, env)
+            self._drop_origin(env, e.target.id)
             self._set(env, e.target.id, v)
+            self._note_origin(e.target.id, e.value, env)
             return v
         if isinstance(e, ast.UnaryOp):
             if isinstance(e.op, ast.Not):
@@ -972,7 +1012,7 @@ class _Feas:
             self._forget_walrus(e, env)
             return _OBJ
         if isinstance(e, (ast.Attribute, ast.Subscript)):
-            a = self._atom(e, "any")
+            a = self._atom(e, "any", env)
             if a != _ANY:
                 self._forget_walrus(e, env)
                 return a
@@ -1005,7 +1045,7 @@ class _Feas:
             self._forget_walrus(e, env)
             return _BOOL
         op, l, r = e.ops[0], e.left, e.comparators[0]
-        decided = self.assume(fact_of(self._root(e), True)) if not isinstance(strip_cast(l), ast.NamedExpr) else None
+        decided = self.assume(fact_of(self._root(e, env), True)) if not isinstance(strip_cast(l), ast.NamedExpr) else None
         if decided is not None:
             f = fact_of(e, True)
             self._forget_walrus(e, env)
@@ -1015,7 +1055,7 @@ class _Feas:
                 # `flag is True` / `flag == False` (e.g. from `case (True, _):`) about an atom whose truth is assumed: a flag compared with a bool is a bool
                 c = const_value(b)
                 if isinstance(c, bool) and not isinstance(strip_cast(a), (ast.NamedExpr, ast.Constant)) and not (isinstance(strip_cast(a), ast.Name) and strip_cast(a).id in self.tracked):
-                    f = fact_of(self._root(a), True)
+                    f = fact_of(self._root(a, env), True)
                     v = self.assume(f) if f.op == "truthy" else None
                     if v is not None:
                         self._forget_walrus(e, env)
@@ -1102,7 +1142,7 @@ class _Feas:
 
     # ------------------------------------------------------------ calls
     def _call(self, e: ast.Call, env: dict, awaited: bool):  # noqa: C901, PLR0911, PLR0912
-        f = fact_of(self._root(e), True)
+        f = fact_of(self._root(e, env), True)
         v = self.assume(f)
         if v is not None:
             self._forget_walrus(e, env)
@@ -1116,6 +1156,14 @@ class _Feas:
             r = self._isinstance(e, env)
             if r is not None:
                 return r
+        if fn in ("any", "all") and len(e.args) == 1 and not e.keywords and "any" not in self.tracked and "all" not in self.tracked:
+            # any((a, b, c)) / all(f(x) for x in (p, q)) over conditions written out in the source: the or / and of those conditions
+            items = self._written_items(e.args[0])
+            if items is not None:
+                if not items:
+                    return frozenset({_FALSE if fn == "any" else _TRUE})
+                bo = ast.copy_location(ast.BoolOp(op=ast.Or() if fn == "any" else ast.And(), values=items), e)
+                return _bools({_is_true(x) for x in self.ev(bo, env)})
         self._forget_walrus(e, env)
         last = fn.rsplit(".", 1)[-1] if fn else None
         if fn in _PURE_BOOL_CALLS:
@@ -1150,6 +1198,9 @@ class _Feas:
         for t in targets:
             decs = [d for d in t.decorator_names() if d not in ("staticmethod", "classmethod")]
             is_gen = any(isinstance(x, (ast.Yield, ast.YieldFrom)) for x in walk_no_nested(t.node))
+            dv = _decorated_view(self.ctx, t) if decs and id(t.node) not in self.stack else None
+            if dv is not None:
+                t, decs = dv, []
             if "task" in decs and len(decs) == 1 and not awaited:
                 out |= {"T"}              # @task registers the coroutine and returns its Future
             elif decs:
@@ -1161,6 +1212,24 @@ class _Feas:
             else:
                 out |= self._summary(t, e, env)
         return frozenset(out)
+
+    def _written_items(self, x: ast.AST) -> list[ast.AST] | None:
+        """the element expressions of a collection written out where it is used: a display, a comprehension over a display, or a pure single-assignment local holding one"""
+        x = strip_cast(x)
+        if isinstance(x, ast.Name) and x.id in self.stored and x.id not in self.params:
+            d = single_def(self.fi, x.id)
+            if d is None or d[1] is not None or not _pure_read(d[0]):
+                return None
+            x = strip_cast(d[0])
+        if isinstance(x, (ast.Tuple, ast.List, ast.Set)):
+            return None if any(isinstance(el, ast.Starred) for el in x.elts) else list(x.elts)
+        if isinstance(x, (ast.GeneratorExp, ast.ListComp, ast.SetComp)) and len(x.generators) == 1:
+            g = x.generators[0]
+            rows = self._written_items(g.iter)
+            if rows is None or g.ifs or g.is_async or not isinstance(g.target, ast.Name) or any(isinstance(y, (ast.NamedExpr, ast.Lambda, *_COMPREHENSIONS)) for y in ast.walk(x.elt)):
+                return None
+            return [_instantiate(x.elt, {g.target.id: r}) for r in rows]
+        return None
 
     def _record(self, cls: ClassInfo, e: ast.Call, env: dict):
         """the result object that `Cls(a, b, field=c)` builds, field by field; None when cls is not a plain record class"""
@@ -1252,7 +1321,8 @@ class _Feas:
         for p in pos + kwonly:
             if p in exprs and exprs[p] is not None:
                 x = exprs[p]
-                bind[p] = self._root(x)
+                roots = {norm(r): r for r in [self._root(x, env) for env in envs]}
+                bind[p] = next(iter(roots.values())) if len(roots) == 1 else self._root(x)
                 vals = [self.ev(x, dict(env)) for env in envs] or [_ANY]
                 penv[p] = frozenset().union(*vals)
             elif p in exprs:
@@ -1329,12 +1399,12 @@ def _unreachable_assuming(ctx: Ctx, fi: FuncInfo, site: ast.AST, assume) -> bool
     return _chain_unreachable(ctx, [(fi, site)], assume)
 
 
-def _chain_unreachable(ctx: Ctx, links: list[tuple[FuncInfo, ast.AST]], assume) -> bool:
+def _chain_unreachable(ctx: Ctx, links: list[tuple[FuncInfo, ast.AST]], assume, penv0: dict | None = None) -> bool:
     """
     links = [(f0, call of f1 in f0), (f1, call of f2 in f1), ..., (fk, site)]: the site is only evaluated through this chain of calls.
     True iff under the assumption one of the links cannot be reached in its function (parameters bound to the caller's arguments).
     """
-    bind = penv = None
+    bind, penv = None, penv0        # (penv0: what is known about the values of the first function's parameters)
     memo: dict = {}
     for i, (fi, node) in enumerate(links):
         fe = _Feas(ctx, fi, assume, bind=bind, penv=penv, depth=i, memo=memo)
@@ -1352,6 +1422,64 @@ def _chain_unreachable(ctx: Ctx, links: list[tuple[FuncInfo, ast.AST]], assume) 
             b = fe.bind_call(call, links[i + 1][0], envs) if call is not None else None
             bind, penv = b if b is not None else ({p: None for p in links[i + 1][0].params()}, {})
     return False
+
+
+def _is_new_function(ctx: Ctx, t: FuncInfo) -> bool:
+    """t is not part of the reviewed tree (a helper that a later change split off): not in the frozen table of reviewed functions"""
+    table = ctx.__dict__.get("_c11_reviewed")
+    if table is None:
+        from ..localnames import load_table
+        try:
+            table = load_table()
+        except Exception:  # noqa: BLE001
+            table = {}
+        ctx.__dict__["_c11_reviewed"] = table
+    known = table.get(t.module.relpath)
+    if known is None:
+        return True
+    q = t.qualname
+    return not any(q == k or q.startswith(k + ".") for k in known)
+
+
+def _as_method_of_caller(ctx: Ctx, fi: FuncInfo, call: ast.Call, t: FuncInfo) -> FuncInfo:
+    """
+    A module-level function that is handed the calling object (`_teardown(self)`, `await stop_all(self, tasks)`): the same function with that
+    parameter spelled `self` and attributed to the caller's class, i.e. read as the method it would be.  t itself when this does not apply.
+    """
+    if t.cls is not None or fi.cls is None or isinstance(t.node, ast.Lambda) or isinstance(fi.node, ast.Lambda) or not fi.params() or t.decorator_names():
+        return t
+    own = fi.params()[0]
+    if own not in ("self", "cls") or "staticmethod" in fi.decorator_names():
+        return t
+    b = _simple_binding(t, call)
+    ps = [q for q, a in b.items() if isinstance(a, ast.Name) and a.id == own]
+    if len(ps) != 1 or any(isinstance(a, ast.Starred) for a in call.args) or any(kw.arg is None for kw in call.keywords):
+        return t
+    q = ps[0]
+    names = [x for x in ast.walk(t.node) if isinstance(x, ast.Name)]
+    if q == own:
+        rebound = any(x.id == q and isinstance(x.ctx, (ast.Store, ast.Del)) for x in names)
+        if rebound:
+            return t
+    elif any(x.id == own for x in names) or any(x.id == q and isinstance(x.ctx, (ast.Store, ast.Del)) for x in names) or own in t.params():
+        return t
+    views = ctx.__dict__.setdefault("_c11_selfviews", {})
+    k = (id(t.node), q, id(fi.cls.node))
+    if k in views:
+        return views[k]
+    node = clone(t.node)
+    for x in ast.walk(node):
+        if isinstance(x, ast.Name) and x.id == q:
+            x.id = own
+        elif isinstance(x, ast.arg) and x.arg == q:
+            x.arg = own
+    # (the object comes first, as in a method: `_simple_binding` / bind_call then skip it for `self.f(..)`-style calls only; the call site here is `f(self, ..)`,
+    # a plain-name call, which binds all positional parameters including this one)
+    set_parents(node)
+    view = FuncInfo(t.name, t.qualname, node, t.module, fi.cls)
+    view._c11_selfview = True       # noqa: SLF001
+    views[k] = view
+    return view
 
 
 def _helper_targets(ctx: Ctx, fi: FuncInfo, call: ast.Call) -> list[FuncInfo]:
@@ -1390,7 +1518,12 @@ def _helper_targets(ctx: Ctx, fi: FuncInfo, call: ast.Call) -> list[FuncInfo]:
         return []
     out = []
     for t in ts:
+        t = _as_method_of_caller(ctx, fi, call, t)
         decs = [d for d in t.decorator_names() if d not in ("staticmethod", "classmethod")]
+        if decs and t.node is not fi.node and t.qualname != fi.qualname:
+            dv = _decorated_view(ctx, t)        # a pass-through decorator: the name denotes wrapper + body
+            if dv is not None:
+                t, decs = dv, []
         if decs or t.node is fi.node or t.name == "__init__" or t.qualname == fi.qualname:
             continue
         if t.is_async and not _awaited(call):
@@ -1410,8 +1543,8 @@ def _sites_through(ctx: Ctx, fi: FuncInfo, finder, depth: int = 2, _stack: tuple
         return out
     for c in calls(fi):
         for t in _helper_targets(ctx, fi, c):
-            if id(t.node) in _stack or t.module is not fi.module:
-                continue
+            if id(t.node) in _stack or (t.module is not fi.module and not _is_new_function(ctx, t)):
+                continue              # (a reviewed function of another module is that module's business; a helper split off later is a respelling of this one)
             for rest in _sites_through(ctx, U(ctx, t), finder, depth - 1, (*_stack, id(fi.node), id(t.node))):
                 out.append([(fi, c), *rest])
     return out
@@ -2068,6 +2201,255 @@ class _Desugar(ast.NodeTransformer):
         return n
 
 
+def _property_views(ctx: Ctx, cls: ClassInfo) -> dict[str, str]:
+    """
+    `self._holder.field` -> property name, for every read-only @property of the class family whose getter is just `return self._holder.field`
+    (a stored attribute that became a view over a small private state-holder object): reading the property IS reading that field, and a store
+    into the field is a store into what the property reads.
+    """
+    memo = ctx.__dict__.setdefault("_c11_propviews", {})
+    k = id(cls.node)
+    if k in memo:
+        return memo[k]
+    out: dict[str, str] = {}
+    setters = {m.name for c in cls.mro() for m in c.module.all_functions if m.cls is c and any(d.endswith(".setter") or d.endswith(".deleter") for d in m.decorator_names())}
+    for c in cls.mro():
+        for m in c.methods.values():
+            if m.decorator_names() != ["property"] or m.name in setters:
+                continue
+            body = [st for st in m.node.body if not (isinstance(st, ast.Expr) and isinstance(st.value, ast.Constant))]
+            if len(body) != 1 or not isinstance(body[0], ast.Return) or body[0].value is None:
+                continue
+            v = strip_cast(body[0].value)
+            ps = m.params()
+            if isinstance(v, ast.Attribute) and isinstance(v.value, ast.Attribute) and isinstance(v.value.value, ast.Name) and ps and v.value.value.id == ps[0] \
+                    and v.value.attr.startswith("_") and not v.value.attr.startswith("__"):
+                # (the most derived definition of a property name wins; a name defined twice with different fields is not folded)
+                key = f"self.{v.value.attr}.{v.attr}"
+                if cls.lookup(m.name) is m and key not in out:
+                    out[key] = m.name
+    memo[k] = out
+    return out
+
+
+def _index_loop_as_for(fn: ast.AST) -> bool:
+    """
+    `i = 0` / `while i < len(S): .. S[i] .. ; i += 1` over a local sequence S that the loop does not touch  ->  `for S@i in S: .. S@i ..`
+    (the same elements in the same order; `break` keeps its meaning).  Rewrites fn in place; True when something changed.
+    """
+    changed = False
+    for blk_owner in list(ast.walk(fn)):
+        for field in ("body", "orelse", "finalbody"):
+            blk = getattr(blk_owner, field, None)
+            if not isinstance(blk, list):
+                continue
+            for pos, w in enumerate(blk):
+                if not (isinstance(w, ast.While) and not w.orelse and pos > 0 and isinstance(w.test, ast.Compare) and len(w.test.ops) == 1):
+                    continue
+                l, op, r = w.test.left, w.test.ops[0], w.test.comparators[0]
+                if isinstance(op, ast.Gt):
+                    l, r, op = r, l, ast.Lt()
+                if not (isinstance(op, (ast.Lt, ast.NotEq)) and isinstance(l, ast.Name) and isinstance(r, ast.Call) and chain(r.func) == "len" and len(r.args) == 1
+                        and isinstance(r.args[0], ast.Name)):
+                    continue
+                i, seq = l.id, r.args[0].id
+                # the counter starts at 0 in the statement(s) right before the loop
+                init = next((st for st in reversed(blk[:pos]) if any(isinstance(x, ast.Name) and x.id == i for x in ast.walk(st))), None)
+                if not (isinstance(init, ast.Assign) and len(init.targets) == 1 and isinstance(init.targets[0], ast.Name) and init.targets[0].id == i
+                        and const_value(init.value) == 0 and not isinstance(const_value(init.value), bool)):
+                    continue
+                between = blk[blk.index(init) + 1:pos]
+                if any(isinstance(x, (ast.While, ast.For, ast.If, ast.Try, ast.With)) for st in between for x in ast.walk(st)):
+                    continue
+                last = w.body[-1] if w.body else None
+                if not (isinstance(last, ast.AugAssign) and isinstance(last.op, ast.Add) and isinstance(last.target, ast.Name) and last.target.id == i
+                        and const_value(last.value) == 1 and len(w.body) > 1):
+                    continue
+                rest = w.body[:-1]
+                inner = [x for st in rest for x in ast.walk(st)]
+                if any(isinstance(x, ast.Continue) for x in inner) or any(isinstance(x, (ast.FunctionDef, ast.AsyncFunctionDef, ast.Lambda)) for x in inner):
+                    continue
+                uses_i = [x for x in inner if isinstance(x, ast.Name) and x.id == i]
+                subs = [x for x in inner if isinstance(x, ast.Subscript) and isinstance(x.ctx, ast.Load) and isinstance(x.value, ast.Name) and x.value.id == seq
+                        and isinstance(x.slice, ast.Name) and x.slice.id == i]
+                uses_seq = [x for x in inner if isinstance(x, ast.Name) and x.id == seq]
+                if len(uses_i) != len(subs) or len(uses_seq) != len(subs) or not subs:
+                    continue
+                # the counter is not read after the loop
+                after = [x for st in blk[pos + 1:] for x in ast.walk(st) if isinstance(x, ast.Name) and x.id == i]
+                if after or blk_owner is not fn and any(isinstance(x, ast.Name) and x.id == i for x in ast.walk(fn)
+                                                        if not any(x is y for st in [init, w] for y in ast.walk(st))):
+                    continue
+                var = f"{seq}@{i}"
+
+                class R(ast.NodeTransformer):
+                    def visit_Subscript(self, n: ast.Subscript):
+                        if n in subs:
+                            return ast.copy_location(ast.Name(id=var, ctx=ast.Load()), n)
+                        self.generic_visit(n)
+                        return n
+                body = [R().visit(st) for st in rest]
+                loop = ast.copy_location(ast.For(target=ast.Name(id=var, ctx=ast.Store()), iter=ast.Name(id=seq, ctx=ast.Load()), body=body, orelse=[]), w)
+                blk[pos] = loop
+                blk.remove(init)
+                changed = True
+                break
+    return changed
+
+
+def _generator_loops_inlined(ctx: Ctx, fi: FuncInfo, fn: ast.AST) -> bool:       # noqa: C901, PLR0912
+    """
+    `for x in self._gen(a): BODY` over a plain generator helper of the same object / module  ->  the generator's statements with every `yield E`
+    replaced by `x = E; BODY` (and `yield from X` by `for x in X: BODY`): what running the loop does, step by step.  Only when nothing can tell the
+    difference: BODY does not break / continue, the generator does not return early, reads no sent values and yields outside try / with.
+    Rewrites fn (a copy of fi's node) in place; True when something changed.
+    """
+    changed = False
+    for owner in list(ast.walk(fn)):
+        for field in ("body", "orelse", "finalbody"):
+            blk = getattr(owner, field, None)
+            if not isinstance(blk, list):
+                continue
+            for pos, loop in enumerate(list(blk)):
+                if not (isinstance(loop, ast.For) and not loop.orelse and isinstance(loop.iter, ast.Call)):
+                    continue
+                call = loop.iter
+                f = call.func
+                if not (isinstance(f, ast.Name) or (isinstance(f, ast.Attribute) and chain(f.value) in ("self", "cls"))):
+                    continue
+                if any(isinstance(a, ast.Starred) for a in call.args) or any(kw.arg is None for kw in call.keywords):
+                    continue
+                try:
+                    ts = ctx.repo.resolve_call(fi, call)
+                except Exception:  # noqa: BLE001
+                    continue
+                if len(ts) != 1:
+                    continue
+                t = ts[0]
+                tn = t.node
+                if t.is_async or tn.decorator_list or tn is fi.node or tn.args.vararg or tn.args.kwarg:
+                    continue
+                inner = list(walk_no_nested(tn))
+                ys = [x for x in inner if isinstance(x, (ast.Yield, ast.YieldFrom))]
+                if not ys or any(isinstance(x, ast.Return) for x in inner) or any(isinstance(x, (ast.FunctionDef, ast.AsyncFunctionDef, ast.Lambda)) and x is not tn for x in ast.walk(tn)):
+                    continue
+                if not all(isinstance(parent(y), ast.Expr) and not any(isinstance(a, (ast.Try, ast.With, ast.AsyncWith)) for a in ancestors(y) if a is not tn
+                                                                         and tn in list(ancestors(a))) for y in ys):
+                    continue
+
+                def own_jumps(stmts) -> bool:
+                    for st in stmts:
+                        if isinstance(st, (ast.Break, ast.Continue)):
+                            return True
+                        if isinstance(st, (ast.For, ast.While, ast.AsyncFor)):
+                            if own_jumps(st.orelse):
+                                return True
+                            continue
+                        for fld in ("body", "orelse", "finalbody"):
+                            if own_jumps(getattr(st, fld, None) or []):
+                                return True
+                        if isinstance(st, ast.Try) and any(own_jumps(h.body) for h in st.handlers):
+                            return True
+                    return False
+                if own_jumps(loop.body) or any(isinstance(x, (ast.Yield, ast.YieldFrom, ast.Await)) for st in loop.body for x in ast.walk(st)):
+                    continue
+                # bind the generator's parameters
+                ps = t.params()
+                mapping: dict[str, ast.AST] = {}
+                if t.cls is not None and "staticmethod" not in t.decorator_names():
+                    if not (isinstance(f, ast.Attribute) and ps and ps[0] == chain(f.value)):
+                        continue
+                    ps = ps[1:]
+                b = _simple_binding(t, call)
+                a_ = tn.args
+                pos_names = [x.arg for x in a_.posonlyargs + a_.args]
+                defaults = dict(zip(pos_names[len(pos_names) - len(a_.defaults):], a_.defaults))
+                defaults.update({x.arg: dv for x, dv in zip(a_.kwonlyargs, a_.kw_defaults) if dv is not None})
+                ok = True
+                for q in ps:
+                    v = b.get(q, defaults.get(q))
+                    if v is None or not _row_value_ok(v):
+                        ok = False
+                    else:
+                        mapping[q] = v
+                stored = {x.id for x in inner if isinstance(x, ast.Name) and isinstance(x.ctx, (ast.Store, ast.Del))}
+                if not ok or stored & set(ps) or len(call.args) > len(ps) or any(kw.arg not in ps for kw in call.keywords):
+                    continue
+                mapping.update({n: ast.Name(id=f"{n}@{t.name}", ctx=ast.Load()) for n in stored})
+                target, body = loop.target, loop.body
+
+                class Y(ast.NodeTransformer):
+                    def visit_Expr(self, n: ast.Expr):
+                        v = n.value
+                        if isinstance(v, ast.Yield):
+                            val = v.value if v.value is not None else ast.Constant(value=None)
+                            return [ast.copy_location(ast.Assign(targets=[clone(target)], value=val), n), *[clone(st) for st in body]]
+                        if isinstance(v, ast.YieldFrom):
+                            return ast.copy_location(ast.For(target=clone(target), iter=v.value, body=[clone(st) for st in body], orelse=[]), n)
+                        return n
+
+                class N(ast.NodeTransformer):
+                    def visit_Name(self, n: ast.Name):
+                        if n.id in mapping:
+                            m = mapping[n.id]
+                            if isinstance(m, ast.Name):
+                                return ast.copy_location(ast.Name(id=m.id, ctx=n.ctx), n)
+                            if isinstance(n.ctx, ast.Load):
+                                return ast.copy_location(clone(m), n)
+                        return n
+                new_body = []
+                for st in tn.body:
+                    if isinstance(st, ast.Expr) and isinstance(st.value, ast.Constant):
+                        continue
+                    st = N().visit(clone(st))
+                    r = Y().visit(st)
+                    new_body.extend(r if isinstance(r, list) else [r])
+                i = blk.index(loop)
+                blk[i:i + 1] = new_body
+                changed = True
+    return changed
+
+
+def _prepass(ctx: Ctx, fi: FuncInfo) -> FuncInfo:
+    """behaviour-preserving respellings applied before the rules look at a function: property views over a state holder, index loops"""
+    if isinstance(fi.node, ast.Lambda):
+        return fi
+    props = _property_views(ctx, fi.cls) if fi.cls is not None and "property" not in fi.decorator_names() else {}
+    hit = props and any(isinstance(x, ast.Attribute) and chain(x) in props for x in ast.walk(fi.node))
+    loops = any(isinstance(x, ast.While) for x in walk_no_nested(fi.node))
+    gens = any(isinstance(x, ast.For) and isinstance(x.iter, ast.Call) and (isinstance(x.iter.func, ast.Name) or chain(getattr(x.iter.func, "value", None)) in ("self", "cls"))
+               and call_name(x.iter) not in (*_SNAPSHOT_CTORS, "range", "enumerate", "zip", "reversed", "iter", "map", "filter") for x in walk_no_nested(fi.node))
+    if not hit and not loops and not gens:
+        return fi
+    node = clone(fi.node)
+    changed = False
+    if hit:
+        class P(ast.NodeTransformer):
+            def visit_Attribute(self, n: ast.Attribute):
+                c = chain(n)
+                if c in props:
+                    nonlocal changed
+                    changed = True
+                    return ast.copy_location(ast.Attribute(value=ast.Name(id="self", ctx=ast.Load()), attr=props[c], ctx=n.ctx), n)
+                self.generic_visit(n)
+                return n
+        node = P().visit(node)
+    if loops and _index_loop_as_for(node):
+        changed = True
+    if gens:
+        set_parents(node)
+        if _generator_loops_inlined(ctx, fi, node):
+            changed = True
+    if not changed:
+        return fi
+    ast.fix_missing_locations(node)
+    set_parents(node)
+    view = FuncInfo(fi.name, fi.qualname, node, fi.module, fi.cls)
+    if getattr(fi, "_c11_obj", None) is not None:
+        view._c11_obj = fi._c11_obj      # noqa: SLF001
+    return view
+
+
 def U(ctx: Ctx, fi: FuncInfo) -> FuncInfo:
     """
     The function as the rules look at it: loops and comprehensions over a table that is written out in the source (dispatch tuples of
@@ -2081,6 +2463,13 @@ def U(ctx: Ctx, fi: FuncInfo) -> FuncInfo:
     hit = views.get(k)
     if hit is not None and hit[0] is fi.node:
         return hit[1]
+    orig = fi
+    dv = _decorated_view(ctx, fi) if not isinstance(fi.node, ast.Lambda) and fi.node.decorator_list else None
+    if dv is not None:
+        fi = dv
+        if getattr(orig, "_c11_obj", None) is not None:
+            fi._c11_obj = orig._c11_obj      # noqa: SLF001
+    fi = _prepass(ctx, fi)
     view = fi
     if not isinstance(fi.node, ast.Lambda) and any(isinstance(x, (ast.For, ast.Match, *_COMPREHENSIONS)) or (isinstance(x, ast.Call) and chain(x.func) in _PIPELINE_CALLS) or
                                                    (isinstance(x, ast.Call) and isinstance(x.func, (ast.Lambda, ast.Call))) or
@@ -2121,7 +2510,200 @@ def U(ctx: Ctx, fi: FuncInfo) -> FuncInfo:
                 cur = view = FuncInfo(fi.name, fi.qualname, new, fi.module, fi.cls)
     if view is not fi and getattr(fi, "_c11_obj", None) is not None:
         view._c11_obj = fi._c11_obj      # noqa: SLF001
-    views[k] = (fi.node, view)
+    views[k] = (orig.node, view)
+    if view is not orig:
+        views[id(view.node)] = (view.node, view)        # (a view is its own view)
+    return view
+
+
+# ----------------------------------------------------------------------------------- functions behind a small pass-through decorator
+def _ends_flow(stmts: list[ast.stmt]) -> bool:
+    """no execution of the statement list falls off its end"""
+    for st in stmts:
+        if isinstance(st, (ast.Return, ast.Raise)):
+            return True
+        if isinstance(st, ast.If) and st.orelse and _ends_flow(st.body) and _ends_flow(st.orelse):
+            return True
+        if isinstance(st, (ast.With, ast.AsyncWith)) and _ends_flow(st.body) and not any(
+                isinstance(i.context_expr, ast.Call) and call_name(i.context_expr) == "suppress" for i in st.items):
+            return True
+        if isinstance(st, ast.Try) and (_ends_flow(st.finalbody) or (_ends_flow(st.body + st.orelse) and all(_ends_flow(h.body) for h in st.handlers))):
+            return True
+    return False
+
+
+def _decorated_view(ctx: Ctx, t: FuncInfo) -> FuncInfo | None:      # noqa: C901, PLR0911, PLR0912, PLR0915
+    """
+    What the name of a function decorated with ONE repository decorator `@d` / `@d(args)` denotes, when the wrapper that d returns only puts
+    something AROUND a pass-through call of the function in tail position (`return func(self, *args, **kwargs)`, `return await func(..)`, also
+    inside `with <lock>:` / `try:` / under a guard that returns early): the wrapper's statements with that return replaced by the function's body,
+    under the function's own signature.  Executing the decorated name executes exactly this.  None when the decorator does anything else with
+    the function (schedules it, changes its arguments, uses its result, calls it twice): such a function stays opaque to the rules.
+    """
+    views = ctx.__dict__.setdefault("_c11_decviews", {})
+    k = id(t.node)
+    if k in views and views[k][0] is t.node:
+        return views[k][1]
+    views[k] = (t.node, None)
+    if isinstance(t.node, ast.Lambda) or len(t.node.decorator_list) != 1:
+        return None
+    d = t.node.decorator_list[0]
+    dcall = d if isinstance(d, ast.Call) else None
+    dfun = d.func if dcall is not None else d
+    if not isinstance(dfun, ast.Name):
+        return None
+    D = ctx.repo.resolve_name(t.module, dfun.id)
+    if not isinstance(D, FuncInfo) or D.is_async or D.node.decorator_list:
+        return None
+
+    def returned_def(f: FuncInfo) -> FuncInfo | None:
+        rets = [r for r in walk_no_nested(f.node) if isinstance(r, ast.Return)]
+        if len(rets) != 1 or rets[0].value is None or any(isinstance(x, (ast.Yield, ast.YieldFrom)) for x in walk_no_nested(f.node)):
+            return None
+        v = strip_cast(rets[0].value)
+        g = _nested_defs(f).get(v.id) if isinstance(v, ast.Name) else None
+        # (the returned wrapper is defined at the top level of the decorator: its definition is not conditional)
+        return g if g is not None and any(st is g.node for st in f.node.body) else None
+    outer_subst: dict[str, ast.AST] = {}
+    deco = D
+    if dcall is not None:
+        # `@d(a, b)`: d is a factory; its parameters stand for the (constant) arguments written at the decoration site
+        if any(isinstance(a, ast.Starred) for a in dcall.args) or any(kw.arg is None for kw in dcall.keywords) or D.node.args.vararg or D.node.args.kwarg:
+            return None
+        ps = D.params()
+        given = dict(zip(ps, dcall.args))
+        given.update({kw.arg: kw.value for kw in dcall.keywords})
+        a = D.node.args
+        pos = [x.arg for x in a.posonlyargs + a.args]
+        defaults = dict(zip(pos[len(pos) - len(a.defaults):], a.defaults))
+        defaults.update({x.arg: dv for x, dv in zip(a.kwonlyargs, a.kw_defaults) if dv is not None})
+        if len(dcall.args) > len(pos) or any(kk not in ps for kk in given):
+            return None
+        for q in ps:
+            v = given.get(q, defaults.get(q))
+            if v is None or not isinstance(strip_cast(v), ast.Constant):
+                return None
+            outer_subst[q] = strip_cast(v)
+        deco = returned_def(D)
+        if deco is None or deco.is_async or deco.node.decorator_list:
+            return None
+    dps = deco.params()
+    if len(dps) != 1:
+        return None
+    fname = dps[0]
+    W = returned_def(deco)
+    if W is None or W.is_async != t.is_async:
+        return None
+    wdecs = [chain(x.func) if isinstance(x, ast.Call) else chain(x) for x in W.node.decorator_list]
+    if any(x not in ("wraps", "functools.wraps") for x in wdecs):
+        return None
+    if any(isinstance(x, (ast.Yield, ast.YieldFrom)) for x in [*walk_no_nested(W.node), *walk_no_nested(t.node)]):
+        return None
+    # everything between the decorator's entry and `return wrapper` must be the wrapper's definition (nothing else is computed per decoration)
+    for f in ([D, deco] if deco is not D else [D]):
+        for st in f.node.body:
+            if not (isinstance(st, (ast.FunctionDef, ast.AsyncFunctionDef, ast.Return, ast.Pass)) or
+                    (isinstance(st, ast.Expr) and isinstance(st.value, ast.Constant))):
+                return None
+    # exactly one use of the function: the pass-through call, as `return func(..)` / `return await func(..)`
+    uses = [x for x in ast.walk(W.node) if isinstance(x, ast.Name) and x.id == fname and x not in
+            [y for dd in W.node.decorator_list for y in ast.walk(dd)]]
+    if len(uses) != 1 or any(isinstance(x, (ast.FunctionDef, ast.AsyncFunctionDef, ast.Lambda)) and x is not W.node for x in ast.walk(W.node)):
+        return None
+    call = parent(uses[0])
+    if not (isinstance(call, ast.Call) and call.func is uses[0]):
+        return None
+    holder = parent(call)
+    if t.is_async:
+        if not isinstance(holder, ast.Await):
+            return None
+        holder = parent(holder)
+    if not isinstance(holder, ast.Return):
+        return None
+    # pass-through: every parameter of the wrapper goes, unchanged and in order, to the parameter of the function at the same place
+    wa, ta = W.node.args, t.node.args
+    if wa.defaults or wa.kw_defaults or wa.kwonlyargs or wa.posonlyargs or ta.posonlyargs:
+        return None
+    wpos = [x.arg for x in wa.args]
+    tpos = [x.arg for x in ta.args]
+    rename: dict[str, str] = {}
+    args = list(call.args)
+    star = None
+    if args and isinstance(args[-1], ast.Starred):
+        star = args.pop()
+    if [a.id if isinstance(a, ast.Name) else None for a in args] != wpos or len(wpos) > len(tpos):
+        return None
+    for w_, t_ in zip(wpos, tpos):
+        rename[w_] = t_
+    if (wa.vararg is not None) != (star is not None) or (star is not None and chain(star.value) != wa.vararg.arg):
+        return None
+    kws = list(call.keywords)
+    if wa.kwarg is not None:
+        if len(kws) != 1 or kws[0].arg is not None or chain(kws[0].value) != wa.kwarg.arg:
+            return None
+    elif kws:
+        return None
+    hidden = {x for x in ([wa.vararg.arg] if wa.vararg else []) + ([wa.kwarg.arg] if wa.kwarg else [])}
+    # the wrapper may not look into *args / **kwargs (they have no name in the function's own signature)
+    inside_call = {id(y) for y in ast.walk(call)}
+    if any(isinstance(x, ast.Name) and x.id in hidden and id(x) not in inside_call for x in ast.walk(W.node)):
+        return None
+    # the wrapper may not rebind what it passes on
+    if any(isinstance(x, ast.Name) and isinstance(x.ctx, (ast.Store, ast.Del)) and (x.id in wpos or x.id in hidden) for x in ast.walk(W.node)):
+        return None
+    tnames = {x.id for x in ast.walk(t.node) if isinstance(x, ast.Name)} | set(t.params())
+    wlocals = {x.id for x in ast.walk(W.node) if isinstance(x, ast.Name) and isinstance(x.ctx, (ast.Store, ast.Del))} | \
+        {h.name for h in ast.walk(W.node) if isinstance(h, ast.ExceptHandler) and h.name}
+    for n in wlocals:
+        if n in tnames or n in rename.values():
+            rename[n] = f"{n}@{dfun.id}"
+    if any(isinstance(x, ast.Name) and x.id in outer_subst and x.id in wlocals for x in ast.walk(W.node)):
+        return None
+    wnode = clone(W.node)
+    set_parents(wnode)
+    target_ret = None
+    for x, y in zip(ast.walk(W.node), ast.walk(wnode)):
+        if x is holder:
+            target_ret = y
+    if target_ret is None:
+        return None
+
+    class S(ast.NodeTransformer):
+        def visit_Name(self, n: ast.Name):
+            if n.id in rename:
+                n.id = rename[n.id]
+            elif n.id in outer_subst and isinstance(n.ctx, ast.Load):
+                return ast.copy_location(clone(outer_subst[n.id]), n)
+            return n
+
+        def visit_ExceptHandler(self, n: ast.ExceptHandler):
+            if n.name in rename:
+                n.name = rename[n.name]
+            self.generic_visit(n)
+            return n
+
+        def visit_Return(self, n: ast.Return):
+            if n is target_ret:
+                body = [clone(st) for st in t.node.body]
+                if not _ends_flow(body):
+                    body.append(ast.copy_location(ast.Return(value=None), n))     # (`return func(..)` returns also when the body falls off its end)
+                return body
+            self.generic_visit(n)
+            return n
+    body = []
+    for st in wnode.body:
+        r = S().visit(st)
+        body.extend(r if isinstance(r, list) else [r])
+    node = clone(t.node)
+    node.decorator_list = []
+    node.body = body
+    ast.fix_missing_locations(node)
+    set_parents(node)
+    view = FuncInfo(t.name, t.qualname, node, t.module, t.cls)
+    if getattr(t, "_c11_obj", None) is not None:
+        view._c11_obj = t._c11_obj      # noqa: SLF001
+    views[k] = (t.node, view)
+    views[id(node)] = (node, None)
     return view
 
 
@@ -2754,8 +3336,12 @@ def _starter_helpers(ctx: Ctx, fi: FuncInfo, k: ast.Call) -> list[FuncInfo]:
         return []
     out = []
     for t in ts:
-        if [d for d in t.decorator_names() if d not in ("staticmethod", "classmethod")] or t.node is fi.node or t.cls is None:
+        if t.node is fi.node or t.cls is None:
             continue
+        if [d for d in t.decorator_names() if d not in ("staticmethod", "classmethod")]:
+            t = _decorated_view(ctx, t)         # a pass-through decorator: wrapper + body
+            if t is None:
+                continue
         if t.is_async and not _awaited(k):
             continue
         out.append(t)
@@ -3468,7 +4054,9 @@ def rule_taskmanager(ctx: Ctx) -> None:  # noqa: C901, PLR0912, PLR0915
                               [s for s, _ in stores(h, "self._pending_tasks[]") if isinstance(s, ast.Delete)])
         for links in pops:
             h, c = links[-1]
-            ok = fut is not None and _chain_unreachable(ctx, links, own)
+            # (add_done_callback hands the callback the finished Future itself: an object, never None - so on a path where the looked-up entry is
+            # None because the name is no longer registered, `entry is future` is false)
+            ok = fut is not None and _chain_unreachable(ctx, links, own, {fut: frozenset({"T"})} if fut in g.params() else None)
             ctx.check(ok, "taskmanager-gates", h, c, "a finished task unregisters its name only if the name still maps to itself",
                       "the done-callback pops the task name unconditionally: when a name is cancelled and re-registered before the old task finishes, the old task's "
                       "callback unregisters the NEW task, which then survives shutdown_task_manager() (e.g. a request-cache timeout firing after unload) and can be duplicated",
@@ -3527,7 +4115,9 @@ def rule_taskmanager(ctx: Ctx) -> None:  # noqa: C901, PLR0912, PLR0915
             continue
         _, names, holders = _value_flow(call_all, top)
         rets = [r for r in walk_no_nested(call_all.node) if isinstance(r, ast.Return)]
-        ok = ok or (bool(rets) and all(r.value is not None and (any(strip_cast(r.value) is h for h in holders[1:]) or _carries(r.value, names)) for r in rets))
+        # (when the cancelling loop stands in a helper that hands all its futures back, the helper call itself is the whole collection)
+        whole = holders[1:] if holder is call_all else holders
+        ok = ok or (bool(rets) and all(r.value is not None and (any(strip_cast(r.value) is h for h in whole) or _carries(r.value, names)) for r in rets))
     ctx.check(ok, "taskmanager-gates", call_all, call_all.node, "cancel_all_pending_tasks cancels every registered name", "not every registered task is cancelled at shutdown")
     # delivery re-check
     dl = U(ctx, repo.method("Endpoint", "_deliver_later", "ipv8/messaging/interfaces/endpoint.py"))
